@@ -32,14 +32,16 @@ def _gate(tok):
 
 @python.define(outputs=["out"])
 def F(a=None, b=None, c=None, d=None, e=None, tag: str = "F", fail: bool = False, gate: bool = False,
-      failtok: str = ""):
+      failtok: str = "", sleep: float = 0.0):
     """returns the term tag(a=..,b=..); logs start/end; optional gate and failure"""
     args = {k: v for k, v in (("a", a), ("b", b), ("c", c), ("d", d), ("e", e)) if v is not None}
     term = tag + "(" + ",".join(k + "=" + s(v) for k, v in args.items()) + ")"
     evlog.emit("start", node=tag, term=term)
+    if sleep:
+        time.sleep(sleep)
     if gate:
         _gate(term)
-    if fail or (failtok and any(failtok == v for v in args.values())):
+    if fail or (failtok and any(v in failtok.split(",") for v in args.values() if isinstance(v, str))):
         evlog.emit("fail", node=tag, term=term)
         raise ValueError("boom-" + term)
     evlog.emit("end", node=tag, term=term)
